@@ -120,17 +120,31 @@ impl SchemaBuilder {
     ) {
         for definition in &document.definitions {
             macro_rules! type_definition {
-                ($def: ident, $Type: ident, is_scalar = $is_scalar: literal) => {
+                ($def: ident, $Type: ident, $Extension: ident, is_scalar = $is_scalar: literal) => {
                     match self.schema.types.entry($def.name.clone()) {
                         Entry::Vacant(entry) => {
-                            let extended_def = $Type::from_ast(
-                                &mut self.errors,
-                                $def,
-                                self.orphan_type_extensions
-                                    .shift_remove(&$def.name)
-                                    .unwrap_or_default(),
-                            );
-                            entry.insert(extended_def.into());
+                            let extensions = self
+                                .orphan_type_extensions
+                                .shift_remove(&$def.name)
+                                .unwrap_or_default();
+                            let extended_def: ExtendedType =
+                                $Type::from_ast(&mut self.errors, $def, extensions.clone()).into();
+                            // Extensions that came before the definition are checked
+                            // like the ones that come after it
+                            for extension in &extensions {
+                                if !matches!(extension, ast::Definition::$Extension(_)) {
+                                    self.errors.push(
+                                        extension.name().and_then(|name| name.location()),
+                                        BuildError::TypeExtensionKindMismatch {
+                                            name: $def.name.clone(),
+                                            describe_ext: extension.describe(),
+                                            def_location: $def.name.location(),
+                                            describe_def: extended_def.describe(),
+                                        },
+                                    )
+                                }
+                            }
+                            entry.insert(extended_def);
                         }
                         Entry::Occupied(entry) => {
                             let previous = entry.get();
@@ -220,22 +234,22 @@ impl SchemaBuilder {
                     }
                 }
                 ast::Definition::ScalarTypeDefinition(def) => {
-                    type_definition!(def, ScalarType, is_scalar = true)
+                    type_definition!(def, ScalarType, ScalarTypeExtension, is_scalar = true)
                 }
                 ast::Definition::ObjectTypeDefinition(def) => {
-                    type_definition!(def, ObjectType, is_scalar = false)
+                    type_definition!(def, ObjectType, ObjectTypeExtension, is_scalar = false)
                 }
                 ast::Definition::InterfaceTypeDefinition(def) => {
-                    type_definition!(def, InterfaceType, is_scalar = false)
+                    type_definition!(def, InterfaceType, InterfaceTypeExtension, is_scalar = false)
                 }
                 ast::Definition::UnionTypeDefinition(def) => {
-                    type_definition!(def, UnionType, is_scalar = false)
+                    type_definition!(def, UnionType, UnionTypeExtension, is_scalar = false)
                 }
                 ast::Definition::EnumTypeDefinition(def) => {
-                    type_definition!(def, EnumType, is_scalar = false)
+                    type_definition!(def, EnumType, EnumTypeExtension, is_scalar = false)
                 }
                 ast::Definition::InputObjectTypeDefinition(def) => {
-                    type_definition!(def, InputObjectType, is_scalar = false)
+                    type_definition!(def, InputObjectType, InputObjectTypeExtension, is_scalar = false)
                 }
                 ast::Definition::SchemaExtension(ext) => match &mut self.schema_definition {
                     SchemaDefinitionStatus::Found => self
